@@ -117,6 +117,8 @@ func main() {
 		r.genC02(*seed, *ndb, *nq, *depth, only)
 	case "exec":
 		r.exec(*in, only)
+	case "c06":
+		r.genC06(*seed, *ndb, *nq, *depth, only)
 	case "c05":
 		r.genC05(*seed, *ndb, *nq, *depth, only)
 	case "c01":
